@@ -8,7 +8,7 @@ except ImportError:  # pragma: no cover
 
 from iso8601 import iso8601
 from pyparsing import Word, ZeroOrMore, Literal, Forward, Combine, Optional, Regex, OneOrMore, \
-    CaselessLiteral, Suppress, Group
+    CaselessLiteral, Suppress, Group, Keyword
 
 from .datatypes import *
 from .filter_ast import *
@@ -44,7 +44,10 @@ hs_digits = Regex(r'[0-9_]+')
 hs_quantity = (hs_decimal + hs_unit).leaveWhitespace().setParseAction(
     lambda toks: Quantity(toks[0], toks[1])
 )
-hs_number = hs_quantity | hs_decimal | Literal('INF') | Literal("-INF") | Literal("Nan")
+hs_number = hs_quantity | hs_decimal | \
+            (Literal('INF') | Literal("-INF") | Literal("NaN")).setParseAction(
+                lambda toks: float(toks[0])
+            )
 hs_bool = (Literal("true") | Literal("false")).setParseAction(
     lambda toks: toks[0] == "true"
 )  # Extension to accept T or F
@@ -212,7 +215,7 @@ hs_cmpOp = Literal("==") | Literal("!=") | Literal("<=") | Literal(">=") | Liter
 hs_cmp = (hs_path + hs_cmpOp + hs_val).setParseAction(
     lambda toks: FilterBinary(toks[1], toks[0], toks[2])
 )
-hs_missing = (Suppress(Literal("not")) + hs_path).setParseAction(
+hs_missing = (Suppress(Keyword("not")) + hs_path).setParseAction(
     lambda toks: FilterUnary("not", toks[0])
 )
 hs_has = hs_path.copy().setParseAction(
@@ -234,10 +237,10 @@ def _fold_left(op):
     return _action
 
 
-hs_condAnd = (hs_term + ZeroOrMore(Literal("and") + hs_term)).setParseAction(
+hs_condAnd = (hs_term + ZeroOrMore(Keyword("and") + hs_term)).setParseAction(
     _fold_left("and")
 )
-hs_condOr = (hs_condAnd + ZeroOrMore(Literal("or") + hs_condAnd)).setParseAction(
+hs_condOr = (hs_condAnd + ZeroOrMore(Keyword("or") + hs_condAnd)).setParseAction(
     _fold_left("or")
 )
 hs_filter <<= hs_condOr
